@@ -303,14 +303,41 @@ func (sm *seatManager) rotatePositions() error {
 		tempNewDealerSeatID := previousSBSeatID
 
 		// update seat_player.IsBetweenDealerBB before
+		previousIsBetweenDealerBB := make(map[int]bool)
 		for seatID, sp := range sm.Seats() {
+			if sp != nil {
+				previousIsBetweenDealerBB[seatID] = sp.IsBetweenDealerBB
+			}
 			if sp != nil && !sp.Active() {
 				sm.SeatData[seatID].IsBetweenDealerBB = sm.isBetweenDealerBB(tempNewDealerSeatID, newBBSeatID, seatID)
 			}
 		}
 
+		waitingPlayersReleased := false
 		activeCount := sm.getActivePlayerCount()
 		if activeCount < 2 {
+			// not enough players to deal to: seated-in players with chips no longer wait for the big blind
+			inAndHasChipsCount := 0
+			for _, sp := range sm.Seats() {
+				if sp != nil && sp.IsIn && sp.HasChips {
+					inAndHasChipsCount++
+				}
+			}
+			if inAndHasChipsCount >= 2 {
+				for seatID, sp := range sm.Seats() {
+					if sp != nil && sp.IsIn && sp.HasChips {
+						sm.SeatData[seatID].IsBetweenDealerBB = false
+					}
+				}
+				activeCount = sm.getActivePlayerCount()
+				waitingPlayersReleased = true
+			}
+		}
+		if activeCount < 2 {
+			// a refused rotation moves nothing
+			for seatID, isBetweenDealerBB := range previousIsBetweenDealerBB {
+				sm.SeatData[seatID].IsBetweenDealerBB = isBetweenDealerBB
+			}
 			sm.printState(1, func(tag int) {
 				fmt.Printf("[DEBUG#seatManager#rotatePositions#%d] activeCount: %d. Error: %+v\n", tag, activeCount, ErrUnableToRotatePositions)
 			})
@@ -327,7 +354,9 @@ func (sm *seatManager) rotatePositions() error {
 			// calc & update dealer & sb seat ids
 			sm.SBSeatID = previousBBSeatID
 
-			if previousRoundIsHU {
+			// the ring of the previous hand is gone (heads-up, or waiting players had to be released):
+			// the dealer is the nearest live seat before the small blind
+			if previousRoundIsHU || waitingPlayersReleased {
 				tempNewDealerSeatID = sm.previousOccupiedAliveSeatID(sm.SBSeatID)
 
 				// update seat_player.IsBetweenDealerBB before
